@@ -138,6 +138,22 @@ fn check_tuple(v: &[f64]) -> Option<String> {
                         }
                     }
                 }
+                // the combined accessor (a trait-provided method an impl may override): both or panic
+                match observe(|| t.get_frequency_confidence()) {
+                    Obs::Ret((f, c)) => {
+                        if consumed < 2 {
+                            return Some(format!("Truth::get_frequency_confidence returned ({:?}, {:?}) for a variant with {} component(s)", f, c, consumed));
+                        }
+                        if !same_bits(f, v[0]) || !same_bits(c, v[1]) {
+                            return Some(format!("Truth::get_frequency_confidence returned ({:?}, {:?}), stored ({:?}, {:?})", f, c, v[0], v[1]));
+                        }
+                    }
+                    Obs::Panic(_) => {
+                        if consumed >= 2 {
+                            return Some("Truth::get_frequency_confidence panicked although both components exist".into());
+                        }
+                    }
+                }
             }
             (Err(_), false) => {}
             (Ok(_), false) => return Some("Truth::try_from_floats accepted a consumed component outside [0,1]".into()),
